@@ -88,14 +88,18 @@ func laws(sch schema.Type, u any, o val.Opts, from string) string {
 	if prob := val.WireProblem(w); prob != "" {
 		return fmt.Sprintf("Serialize of %#v produced %#v, not a wire form: %s", u, w, prob)
 	}
-	// direct
+	// direct: the caller keeps the serialized form it got and hands that very value back (no defensive copy)
+	kept := val.DeepCopy(w)
 	var u2 any
 	var uerr error
-	if p := safely(func() { u2, uerr = sch.Unserialize(val.DeepCopy(w)) }); p != nil {
-		return fmt.Sprintf("Unserialize of the serialized form %#v panicked: %v", w, p)
+	if p := safely(func() { u2, uerr = sch.Unserialize(w) }); p != nil {
+		return fmt.Sprintf("Unserialize of the serialized form %#v panicked: %v", kept, p)
 	}
 	if uerr != nil {
-		return fmt.Sprintf("the serialized form %#v of %#v is not accepted back: %v", w, u, uerr)
+		return fmt.Sprintf("the serialized form %#v of %#v is not accepted back: %v", kept, u, uerr)
+	}
+	if !val.Equal(w, kept, val.Opts{}) {
+		return fmt.Sprintf("Unserialize changed the serialized form it was given, so that form is no longer what Serialize produced:\n before: %#v\n after:  %#v", kept, w)
 	}
 	if !val.Equal(u2, u, o) {
 		return fmt.Sprintf("Unserialize(Serialize(u)) != u:\n u  = %#v\n w  = %#v\n u' = %#v", u, w, u2)
